@@ -20,6 +20,8 @@ var (
 	_ llo.ReportCodec = ReportCodecEVMABIEncodeUnpacked{}
 
 	zero = big.NewInt(0)
+	// upper bound of uint192; abi.Pack does not range check
+	maxUint192 = new(big.Int).Sub(new(big.Int).Lsh(big.NewInt(1), 192), big.NewInt(1))
 )
 
 type ReportCodecEVMABIEncodeUnpacked struct {
@@ -204,11 +206,15 @@ func (r ReportCodecEVMABIEncodeUnpacked) buildHeader(rf BaseReportFields) ([]byt
 		merr = errors.Join(merr, errors.New("linkFee may not be nil"))
 	} else if rf.LinkFee.Cmp(zero) < 0 {
 		merr = errors.Join(merr, fmt.Errorf("linkFee may not be negative (got: %s)", rf.LinkFee))
+	} else if rf.LinkFee.Cmp(maxUint192) > 0 {
+		merr = errors.Join(merr, fmt.Errorf("linkFee does not fit into uint192 (got: %s)", rf.LinkFee))
 	}
 	if rf.NativeFee == nil {
 		merr = errors.Join(merr, errors.New("nativeFee may not be nil"))
 	} else if rf.NativeFee.Cmp(zero) < 0 {
 		merr = errors.Join(merr, fmt.Errorf("nativeFee may not be negative (got: %s)", rf.NativeFee))
+	} else if rf.NativeFee.Cmp(maxUint192) > 0 {
+		merr = errors.Join(merr, fmt.Errorf("nativeFee does not fit into uint192 (got: %s)", rf.NativeFee))
 	}
 	if merr != nil {
 		return nil, merr
